@@ -454,7 +454,19 @@ func (g *functionGenerator) genInstruction(inst ssa.Instruction) (insts []wat.In
 				if !v.value.Type().Equal(t) {
 					panic("Type not match")
 				}
-				s = append(s, v.value.EmitPop()...)
+				// The register was created ahead of its definition (a phi earlier in block order refers
+				// to it). A value produced with reference counting disabled is borrowed: its register must
+				// not own it either, or the borrowed reference is released on every re-assignment and at
+				// function exit.
+				if g.module.RcDisable {
+					if g.none_rc_registers == nil {
+						g.none_rc_registers = make(map[wir.Value]bool)
+					}
+					g.none_rc_registers[v.value] = true
+					s = append(s, v.value.EmitPopNoRelease()...)
+				} else {
+					s = append(s, v.value.EmitPop()...)
+				}
 			} else {
 				nv := g.addRegister(t)
 				g.locals_map[inst] = valueWrap{value: nv}
